@@ -79,7 +79,11 @@ func c07Gen(r *vh.Rng, maxOps int) []string {
 				dl = now - 1e9 // already expired when added
 			}
 			deadlines = append(deadlines, dl)
-			ops = append(ops, fmt.Sprintf("add c%d %d %d", c, job, dl))
+			if r.Bool(8) {
+				ops = append(ops, fmt.Sprintf("add primary %d %d", job, dl)) // a task whose destination is the miner's default destination
+			} else {
+				ops = append(ops, fmt.Sprintf("add c%d %d %d", c, job, dl))
+			}
 		case k < 10:
 			ops = append(ops, fmt.Sprintf("remove c%d", r.Intn(nC)))
 		case k < 16:
@@ -97,12 +101,12 @@ func c07Gen(r *vh.Rng, maxOps int) []string {
 			if r.Bool(50) {
 				ops = append(ops, "exit dest")
 			} else if r.Bool(40) {
-				ops = append(ops, "exit other")
+				ops = append(ops, vh.Pick(r, []string{"exit other", "exit ctxerr"}))
 			}
 		}
 	}
 	if r.Bool(50) {
-		ops = append(ops, "exit other")
+		ops = append(ops, vh.Pick(r, []string{"exit other", "exit other", "exit ctxerr"}))
 	}
 	return ops
 }
@@ -149,7 +153,11 @@ func c07Exec(tr *vh.Transcript, ops []string) {
 			tid := serial
 			serial++
 			cidOf := f[1]
-			s.AddTask(f[1], mustURL("stratum+tcp://x:@"+f[1]+"dest:1"), float64(job),
+			taskDest := mustURL("stratum+tcp://x:@" + f[1] + "dest:1")
+			if f[1] == "primary" {
+				taskDest = primary
+			}
+			s.AddTask(f[1], taskDest, float64(job),
 				func(diff float64, ID string) { rec.add("onsubmit %d %d", tid, int64(diff)) },
 				func(ID string, hr float64, rem float64) {
 					rec.add("ondisconnect %d %d", tid, int64(rem))
@@ -177,9 +185,14 @@ func c07Exec(tr *vh.Transcript, ops []string) {
 				time.Sleep(time.Duration(d))
 			}
 		case "exit":
-			if f[1] == "dest" {
+			switch f[1] {
+			case "dest":
 				fp.exitCh <- fmt.Errorf("wrapped: %w", proxy.ErrDest)
-			} else {
+			case "ctxerr":
+				// the relay ended itself with a context error of a context of its own (Proxy.Run after cancelRun: too many
+				// invalid shares, a write that failed); nobody called Stop and the scheduler's context is alive
+				fp.exitCh <- fmt.Errorf("proxy run: %w", context.Canceled)
+			default:
 				fp.exitCh <- errors.New("source connection closed")
 			}
 		}
@@ -193,8 +206,19 @@ func c07Exec(tr *vh.Transcript, ops []string) {
 			tr.Out("count %d", s.GetTaskCount())
 		}
 	}
+	c07End(tr, cancel, done, "end")
+}
+
+// c07End: the history is over, the session's context ends: the scheduler returns (a scheduler that does not — it waits for a
+// relay that ended without saying so — is reported, and the goroutine is left behind)
+func c07End(tr *vh.Transcript, cancel context.CancelFunc, done chan struct{}, op string) {
 	cancel()
-	<-done
+	select {
+	case <-done:
+	case <-time.After(time.Minute):
+		tr.Op("%s", op)
+		tr.Out("the-scheduler-did-not-return")
+	}
 }
 
 // ---- slow destination changes: SetDest takes time, events arrive while the scheduler is inside it ------------
@@ -332,8 +356,7 @@ func c07SlowExec(tr *vh.Transcript, ops []string) {
 			tr.Out("count %d", s.GetTaskCount())
 		}
 	}
-	cancel()
-	<-done
+	c07End(tr, cancel, done, "send")
 }
 
 // raw TaskList sequences: add / lock / unlockremove / cancel / size / list, panics recorded
@@ -414,6 +437,16 @@ func c07TLExec(tr *vh.Transcript, ops []string) {
 	}
 }
 
+// c07Bubble runs one history in its own bubble; goroutines a history leaves behind end the bubble with a panic, which is noted
+func c07Bubble(t *testing.T, tr *vh.Transcript, f func()) {
+	defer func() {
+		if r := recover(); r != nil {
+			tr.Note("bubble-exit: %v", r)
+		}
+	}()
+	synctest.Test(t, func(t *testing.T) { f() })
+}
+
 func TestVerifC07(t *testing.T) {
 	tr := vh.OpenTranscript("c07.impl.txt")
 	defer tr.Close()
@@ -437,9 +470,9 @@ func TestVerifC07(t *testing.T) {
 				}
 			}
 			if slow {
-				synctest.Test(t, func(t *testing.T) { c07SlowExec(tr, o) })
+				c07Bubble(t, tr, func() { c07SlowExec(tr, o) })
 			} else {
-				synctest.Test(t, func(t *testing.T) { c07Exec(tr, o) })
+				c07Bubble(t, tr, func() { c07Exec(tr, o) })
 			}
 		}
 		return
@@ -451,13 +484,13 @@ func TestVerifC07(t *testing.T) {
 		ops := c07Gen(root.Fork(), vh.EnvInt("VERIF_MAXOPS", 40))
 		tr.Case(c, "scheduler")
 		c++
-		synctest.Test(t, func(t *testing.T) { c07Exec(tr, ops) })
+		c07Bubble(t, tr, func() { c07Exec(tr, ops) })
 	}
 	for i := 0; i < n; i++ {
 		ops := c07SlowGen(root.Fork(), vh.EnvInt("VERIF_MAXOPS", 40))
 		tr.Case(c, "scheduler-slow")
 		c++
-		synctest.Test(t, func(t *testing.T) { c07SlowExec(tr, ops) })
+		c07Bubble(t, tr, func() { c07SlowExec(tr, ops) })
 	}
 	for i := 0; i < n; i++ {
 		tr.Case(c, "tasklist")
